@@ -228,6 +228,7 @@ structure Req where
   src     : Bytes     -- template source (FromString) or file name (FromFile)
   ctx     : Env
   nilCtx  : Bool
+  autoescape : Bool := true
 
 def decodeNames (k : Nat) (ts : List String) : Option (List Bytes × List String) := do
   let ns ← (ts.take k).mapM Bytes.ofHex
@@ -282,7 +283,7 @@ def decodeReq (ts : List String) : Option Req := do
 
 def cfgOf (r : Req) : SetCfg :=
   { bannedTags := r.banTags, bannedFilters := r.banFilters, loaders := if r.loaders = [] then [[]] else r.loaders,
-    trimBlocks := r.trim, lstripBlocks := r.lstrip,
+    trimBlocks := r.trim, lstripBlocks := r.lstrip, autoescape := r.autoescape,
     regTags := Gen.registeredTags.map (·.1), regFilters := Gen.registeredFilters.map (·.1) }
 
 def showLog (log : List (Nat × Bytes)) : String :=
